@@ -244,6 +244,16 @@ def set_drops(clauses: set, inserts: set):
     _TLS.clauses, _TLS.inserts = clauses, inserts
 
 
+def set_no_decreases(labels: set):
+    """functions that became part of a recursion cycle through a helper pulled in without a contract (R27): they get
+    `exec_allows_no_decreases_clause` (termination through the new cycle is not claimed)"""
+    _TLS.nodecr = set(labels)
+
+
+def _no_decreases() -> set:
+    return getattr(_TLS, 'nodecr', set())
+
+
 def set_exclude_groups(groups: set):
     _TLS.xgroups = set(groups)
 
@@ -434,6 +444,9 @@ def extract_fn(unit: str, file: str, item: str, mode: str, contracts, canary: bo
             head.append(Seg(a + '\n', {'kind': 'vc-attr', 'fn': fn_label}))
     if mode == 'stub':
         head.append(Seg('#[verifier::external_body]\n', {'kind': 'stub-attr', 'fn': fn_label}))
+    elif fn_label in _no_decreases() and not (c and any('exec_allows_no_decreases_clause' in a_ for a_ in c.attrs)):
+        head.append(Seg('#[verifier::exec_allows_no_decreases_clause]\n', rw('R27:no-decreases')))
+        info.rewrites.append('R27:no-decreases')
 
     # --- signature: name the return value (A1)
     sig_lo, sig_hi = it.kw, it.body_open_tok
@@ -511,6 +524,7 @@ def extract_fn(unit: str, file: str, item: str, mode: str, contracts, canary: bo
             if toks[k].kind == 'ident' and toks[k].text == 'self':
                 edits.append((toks[k].start, toks[k].end, 'slf', rw('R1')))
         info.rewrites.append('R1')
+
 
     # rule R21: a `let` that shadows a parameter is renamed (Verus resolves a shadowed parameter name in `ensures`
     # to the local at `return` points); every later use in the enclosing block refers to the new binding.
@@ -648,6 +662,69 @@ def extract_fn(unit: str, file: str, item: str, mode: str, contracts, canary: bo
                 info.lost.append(str(ev))
                 return True
             return False
+
+    # rule R29: a `let mut X = E;` that a closure captures mutably (a hard error in Verus) becomes `let X = VpCell::vp_new(E);`
+    # (std::cell::Cell semantics: the closure then captures `&X`).  Reads become `X.vp_get()`, assignments `X.vp_set(E)`;
+    # `X.replace(v)` resolves to the cell's own `replace` (same meaning as BoolExt::replace).  The cell's contract says NOTHING about
+    # its content -- every read yields an arbitrary value -- so whatever is proved holds for every content (an over-approximation).
+    if c and c.cells:
+        def _stmt_end(k0):
+            """index of the `;` that ends the statement starting at token k0 (depth 0)"""
+            d_ = 0
+            for k_ in range(k0, bhi):
+                tx_ = toks[k_].text
+                if toks[k_].kind == 'punct':
+                    if tx_ in ('(', '[', '{'):
+                        d_ += 1
+                    elif tx_ in (')', ']', '}'):
+                        d_ -= 1
+                        if d_ < 0:
+                            return None
+                    elif tx_ == ';' and d_ == 0:
+                        return k_
+            return None
+        for name in c.cells:
+          with _Txn():
+            found_let = False
+            for k in range(blo, bhi):
+                t = toks[k]
+                if t.kind != 'ident' or t.text != name:
+                    continue
+                prev, nxt = toks[k - 1], toks[k + 1]
+                if prev.text == 'mut' and toks[k - 2].text == 'let':
+                    # declaration
+                    eq = None
+                    for k_ in range(k + 1, bhi):
+                        if toks[k_].text == '=' and toks[k_].kind == 'punct':
+                            eq = k_
+                            break
+                        if toks[k_].text == ';':
+                            break
+                    end = _stmt_end(k) if eq is not None else None
+                    if eq is None or end is None or nxt.text == ':':
+                        raise LostAnchor('%s: @cell %s: unsupported declaration' % (fn_label, name))
+                    edits.append((prev.start, t.start, '', rw('R29')))
+                    edits.append((toks[eq].end, toks[eq].end, ' VpCell::vp_new(', rw('R29')))
+                    edits.append((toks[end].start, toks[end].start, ')', rw('R29')))
+                    found_let = True
+                elif prev.text in ('.', '::') or (prev.text == '&' and False):
+                    continue
+                elif prev.text == 'mut' or (nxt.kind == 'punct' and nxt.text in ('+=', '-=', '*=', '|=', '&=', '^=')):
+                    raise LostAnchor('%s: @cell %s: unsupported use' % (fn_label, name))
+                elif nxt.kind == 'punct' and nxt.text == '=':
+                    end = _stmt_end(k)
+                    if end is None:
+                        raise LostAnchor('%s: @cell %s: assignment without end' % (fn_label, name))
+                    edits.append((t.end, nxt.end, '.vp_set(', rw('R29')))
+                    edits.append((toks[end].start, toks[end].start, ')', rw('R29')))
+                elif nxt.text == '.' and toks[k + 2].text == 'replace' and toks[k + 3].text == '(':
+                    continue
+                else:
+                    edits.append((t.end, t.end, '.vp_get()', rw('R29')))
+            if not found_let:
+                raise LostAnchor('%s: @cell %s: no `let mut %s`' % (fn_label, name, name))
+            info.rewrites.append('R29:cell %s' % name)
+
 
     if c:
         for k, ls in sorted(c.loops.items()):
@@ -916,6 +993,10 @@ def find_helper(file: str, name: str, type_name: Optional[str]):
     return None
 
 
+# a helper pulled in without a contract (R27) has no `decreases` either: termination of recursion through it is not claimed
+_R27_ATTR = Seg('#[verifier::exec_allows_no_decreases_clause]\n', {'kind': 'rewrite', 'rule': 'R27:no-decreases'})
+
+
 def assemble(unit_path: str, contracts=None, canary: bool = False, extras: Optional[List[Tuple[str, str, str]]] = None) -> Assembled:
     """extras: (after function label, file, item path) -- helper functions pulled in automatically, without a contract (R27)"""
     if contracts is None:
@@ -952,6 +1033,7 @@ def assemble(unit_path: str, contracts=None, canary: bool = False, extras: Optio
                         if '::' in xi:
                             continue
                         xs, xinfo = extract_fn(unit, xf, xi, 'body', contracts, False, {})
+                        xs = [_R27_ATTR] + xs
                         xinfo.auto_added = True
                         xinfo.verus_name = '::'.join(mod_stack + [xi])
                         start = sum(len(s.text.encode()) for s in segs)
@@ -1018,6 +1100,7 @@ def assemble(unit_path: str, contracts=None, canary: bool = False, extras: Optio
                         continue
                     if ('::' in xi) == ('::' in item):
                         xs, xinfo = extract_fn(unit, xf, xi, 'body', contracts, False, {})
+                        xs = [_R27_ATTR] + xs
                         xinfo.auto_added = True
                         emit(xs, xinfo, xi)
                     else:
